@@ -6,9 +6,7 @@ from .common import both
 ID = 'C09'
 TARGETS = ['theories/Properties/C09.vo']
 THEOREMS = core.theorems_of(ID)
-LEVEL = ('assert_max_version and MAX_SUPPORTED_VERSION regenerated from src/io/slippi/mod.rs; proved: the guard accepts v iff '
-         'v <=lex (3,16,0), for all versions; both real writers are run on zero-frame games of patched versions and must agree with '
-         'the guard (quick: boundary slice, thorough: all 2^24 triples for .slp, majors 3-4 for .slpp under each compression)')
+LEVEL = ('proved (Properties/C09.v): the regenerated guard is the lexicographic comparison with the regenerated maximum for every version triple; both writer models refuse every game above it; the .slp writer model returns an error ONLY then; differential run of both real writers over a boundary grid and random triples (thorough: all 2^24) on a zero-frame game and on a game with frames')
 MAXV = (3, 16, 0)
 
 
